@@ -146,7 +146,7 @@ async fn one_case(seed: u64, case: u64, max_ops: usize, report: &Report) {
     if rng.chance(2, 3) && cfg.storage != lance_encoding::version::LanceFileVersion::Legacy {
         cfg.stable_row_ids = true;
     }
-    cfg.no_deferred_remap = !std::env::var("E_HIST_C38_DEFER").is_ok();
+    cfg.no_deferred_remap = std::env::var("E_HIST_C38_NO_DEFER").is_ok();
     let (cache_name, idx_bytes, meta_bytes) = CACHES[(case % 3) as usize];
     let n_tables = rng.urange(1, 3);
     let n_ops = rng.urange(6, max_ops);
@@ -236,7 +236,7 @@ async fn one_case(seed: u64, case: u64, max_ops: usize, report: &Report) {
                             report.count("rows_compared", rs.rows.len() as u64);
                             if let Some((class, detail)) = diff(rs, gs) {
                                 report.violation(
-                                    &format!("shared-session-read-{class}{}", suffix(&loc)),
+                                    &if suffix(&loc).is_empty() { format!("shared-session-read-{class}") } else { "shared-session-reads-differ-from-fresh-session-after-drop-and-recreate-at-same-uri".to_string() },
                                     &format!("{}:v{} through the shared Session ({how}, cache {cache_name}) differs from a fresh Session", loc.label(), v),
                                     json!({"ctx": ctx(&h), "how": how, "diff": detail}),
                                 );
@@ -249,7 +249,7 @@ async fn one_case(seed: u64, case: u64, max_ops: usize, report: &Report) {
                                     "indexed-query"
                                 };
                                 report.violation(
-                                    &format!("shared-session-{class}-differs{}", suffix(&loc)),
+                                    &if suffix(&loc).is_empty() { format!("shared-session-{class}-differs") } else { "shared-session-reads-differ-from-fresh-session-after-drop-and-recreate-at-same-uri".to_string() },
                                     &format!("{}:v{} {class} through the shared Session ({how}, cache {cache_name}) differs from a fresh Session", loc.label(), v),
                                     json!({"ctx": ctx(&h), "how": how, "fresh": format!("{rr:?}").chars().take(600).collect::<String>(), "shared": format!("{gr:?}").chars().take(600).collect::<String>()}),
                                 );
@@ -257,14 +257,14 @@ async fn one_case(seed: u64, case: u64, max_ops: usize, report: &Report) {
                         }
                         (Ok(_), Err(e)) => {
                             report.violation(
-                                &format!("shared-session-read-fails-where-fresh-session-succeeds{}", suffix(&loc)),
+                                &if suffix(&loc).is_empty() { "shared-session-read-fails-where-fresh-session-succeeds".to_string() } else { "read-fails-in-only-one-of-shared-and-fresh-session-after-drop-and-recreate-at-same-uri".to_string() },
                                 &format!("{}:v{} ({how}, cache {cache_name}): {}", loc.label(), v, e.chars().take(300).collect::<String>()),
                                 json!({"ctx": ctx(&h), "how": how, "error": e}),
                             );
                         }
                         (Err(e), Ok(_)) => {
                             report.violation(
-                                &format!("fresh-session-read-fails-where-shared-session-succeeds{}", suffix(&loc)),
+                                &if suffix(&loc).is_empty() { "fresh-session-read-fails-where-shared-session-succeeds".to_string() } else { "read-fails-in-only-one-of-shared-and-fresh-session-after-drop-and-recreate-at-same-uri".to_string() },
                                 &format!("{}:v{} ({how}, cache {cache_name}): {}", loc.label(), v, e.chars().take(300).collect::<String>()),
                                 json!({"ctx": ctx(&h), "how": how, "error": e}),
                             );
